@@ -34,12 +34,15 @@ structure Graph where
 
 def ver (s : GState) (n : Name) : Nat := (get? s.versions n).getD 0
 
+/-- does `update_value` advance the version? -/
+def bumps (s : GState) (n : Name) (v : Val) : Bool :=
+  match get? s.values n with
+  | .none => true
+  | some old => decide (old ≠ v)
+
 def updateValue (s : GState) (n : Name) (v : Val) : GState :=
-  let bump : Bool := match get? s.values n with
-    | .none => true
-    | some old => decide (old ≠ v)
   { s with values := put s.values n v
-           versions := if bump then put s.versions n (ver s n + 1) else s.versions }
+           versions := if bumps s n v then put s.versions n (ver s n + 1) else s.versions }
 
 /-- `_has_input` -/
 def hasInput (g : Graph) (s : GState) (nd : Node) (p : Name) : Bool :=
